@@ -118,6 +118,17 @@ CHECKS = {
              "untouched. --auto alone and with every other flag equals its expansion and the preset; 10 usage errors exit non-zero with the tree unchanged.",
         note="Trusted: reformat_text as the reference. The document is proven at start-up to change under every single option.",
         ref="DESIGN.md §2 C15"),
+    "C16": dict(
+        level="exploration",
+        technique="complete enumeration of flag x config x --auto x config-kind x location for every setting and every pair of settings; comparison with a precedence model at the intercepted call boundary",
+        text="For each of the 13 settings alone (all 12 config kinds x 5 locations) and for every pair of settings (3 kinds x 2 locations in quick, "
+             "all 60 in thorough): every flag state (absent / given with default value / given with another value) x every config state x "
+             "--auto on/off is run through flowmark.cli.main in-process; the keyword arguments reaching reformat_files and the FileResolverConfig "
+             "reaching FileResolver are intercepted and ALL 13 effective values (not only those under test: cross-talk) must equal the "
+             "precedence model (flag, else --auto preset for the locked switches, else nearest config by file-name order per directory, else default). "
+             "End to end: every key accepted without warning changes the CLI result for some pair of values; unknown keys warn and change nothing.",
+        note="Trusted: the 8-line precedence model in checks/c16.py; interception by replacing two module attributes inside the harness process.",
+        ref="DESIGN.md §2 C16"),
     "C05": dict(
         level="model_checking",
         technique="explicit-state model of the greedy filler, exhaustive trace enumeration + replay of every trace against the implementation",
